@@ -105,7 +105,7 @@ Section Generic.
                      bind (here (i_rng i)) (fun loc =>
                      bind state (fun s =>
                      match ty_find_field s t (i_name i) with
-                     | None => seq (err fr DCannotAccessField) none
+                     | None => match t with MUnknown => none | _ => seq (err fr DCannotAccessField) none end
                      | Some f => seq (add_reference (SyLeaf f) loc) (bind (leaf_of f) (fun lf => ret (lf_ty lf)))
                      end))
                    end (fun t' => sufs_loop t' r)
